@@ -3,7 +3,9 @@ package wl
 import (
 	"bytes"
 	"fmt"
+	"math/rand"
 	"reflect"
+	"strings"
 	"sync"
 
 	"github.com/xelaj/mtproto/internal/encoding/tl"
@@ -145,6 +147,62 @@ func c01(c *wk.Ctx) {
 				idx++
 			}
 		}
+	}
+	// several goroutines encode and decode values of their own at once (every caller of the client does that);
+	// expected bytes are those of the sequential run
+	for k := 0; k < c.Pick(8, 120); k++ {
+		if c.Mine(idx) {
+			r := c.Rand(idx)
+			c.Begin(idx, fmt.Sprintf("concurrent %d", k))
+			type item struct {
+				t reflect.Type
+				v reflect.Value
+				b []byte
+			}
+			sets := make([][]item, 8)
+			for gi := range sets {
+				for len(sets[gi]) < 40 {
+					t := u.Types[r.Intn(len(u.Types))]
+					if t.Kind() != reflect.Ptr {
+						continue
+					}
+					g := &gen.G{U: u, R: r, MaxDepth: 1 + r.Intn(3), ForceStrLen: -1, ImplPick: -1}
+					var v reflect.Value
+					var b []byte
+					var err error
+					if pan, _, _ := wk.Guard(func() { v = g.Object(t, nil, 0); b, err = tl.Marshal(v.Interface()) }); pan || err != nil {
+						continue // the sequential cases report it
+					}
+					sets[gi] = append(sets[gi], item{t, v, append([]byte(nil), b...)})
+				}
+			}
+			res := concurrently(8, int64(idx), func(gi int, _ *rand.Rand) string {
+				for round := 0; round < 6; round++ {
+					for _, it := range sets[gi] {
+						b, err := tl.Marshal(it.v.Interface())
+						if err != nil || !bytes.Equal(b, it.b) {
+							return fmt.Sprintf("marshal-differs: %v marshalled while 7 other goroutines encode and decode: err=%v, bytes differ from the sequential result at offset %d", it.t, err, firstDiff(b, it.b))
+						}
+						obj, err := tl.DecodeUnknownObject(it.b)
+						if err != nil {
+							return fmt.Sprintf("decode-error: %v: %v", it.t, err)
+						}
+						if d := gen.Equal(it.v, reflect.ValueOf(obj), it.t.String()); d != "" {
+							return fmt.Sprintf("decode-differs: %v: %s", it.t, d)
+						}
+					}
+				}
+				return ""
+			})
+			c.Count("evaluations", 8*40*6)
+			for _, m := range res {
+				if m != "" {
+					c.Viol("C01", idx, "concurrent/"+strings.SplitN(m, ":", 2)[0], m, nil)
+				}
+			}
+			c.Distinct("concurrent", k)
+		}
+		idx++
 	}
 	// boundary: the longest legal string and the first illegal one
 	for _, n := range []int{1<<24 - 1, 1 << 24} {
